@@ -542,4 +542,86 @@ theorem kmp_run_dos (tests : List NodeTest) (hne : tests ≠ []) (hs : Simple (F
 
 end
 
+section
+variable (ns : NsMap) (vs : Vars)
+
+theorem lastResult_of_fragAt (S : List Step) (base : Nat) (tests : List NodeTest) (hne : tests ≠ [])
+    (h : FragAt S base tests) (e : Event) : lastResult S e ns = .bool true := by
+  have hn : 0 < tests.length := by cases tests <;> simp_all
+  have hrl := h.rl
+  have hlen := h.len
+  unfold lastResult
+  unfold realLen at hrl
+  cases hl : S.getLast? with
+  | none => rfl
+  | some last =>
+    rw [hl] at hrl
+    simp only at hrl ⊢
+    by_cases ha : (last.axis == Axis.attribute) = true
+    · simp only [ha, if_true] at hrl; omega
+    · simp [ha]
+
+theorem noPositional_of_fragAt (S : List Step) (hp : ∀ s ∈ S, s.preds = []) : NoPositional ns vs S := by
+  intro s hs q hq
+  rw [hp s hs] at hq
+  simp at hq
+
+/-- GenericStrategy itself, from the position machine -/
+theorem generic_of_abstract (S : List Step) (base : Nat) (tests : List NodeTest) (hne : tests ≠ [])
+    (h : FragAt S base tests) (hp : ∀ s ∈ S, s.preds = []) (es : List Event) :
+    (runOne (gStep S ns vs) gInit es).1 = (runOne (aStep ns vs S S.length) [[0]] es).1 := by
+  have hn : 0 < tests.length := by cases tests <;> simp_all
+  have htake : S.take (realLen S) = S := by rw [h.rl]; exact List.take_length
+  rw [generic_eq_abstract ns vs S (by rw [htake]) (by rw [htake]; exact noPositional_of_fragAt ns vs S hp)
+    (by rw [h.rl, h.len]; omega)]
+  have hlast : (fun e v => gate (lastResult S e ns) v) = fun (_ : Event) v => gate (.bool true) v := by
+    funext e v; rw [lastResult_of_fragAt ns S base tests hne h e]
+  rw [hlast, htake, zipWith_gate_true]
+
+theorem preds_fragPath (ax0 : Axis) (tests : List NodeTest) : ∀ s ∈ fragPath ax0 tests, s.preds = [] := by
+  intro s hs
+  cases tests with
+  | nil => simp [fragPath] at hs
+  | cons t0 ts =>
+    simp only [fragPath, childChain, List.mem_cons, List.mem_map] at hs
+    rcases hs with rfl | ⟨t, _, rfl⟩ <;> rfl
+
+/-- **SimplePathStrategy ≡ GenericStrategy on the KMP fragment.**  For `descendant::t1/…/tn`
+    and `descendant-or-self::t1/…/tn` (= a leading `//t1/…/tn`), name / `text()` / `comment()`
+    tests, relative mode, every element tree: the two strategies report the same result at
+    every event. -/
+theorem kmp_runs (ax0 : Axis) (hax : ax0 = .descendant ∨ ax0 = .descendantOrSelf)
+    (tests : List NodeTest) (hne : tests ≠ []) (hs : Simple (Fof tests) tests.length)
+    (tag : QName) (attrs : AttrList) (kids : List Node) (hcl : cleanList kids = true) :
+    (runOne (pStep (fragments (fragPath ax0 tests)) false ns) [] (Node.elem tag attrs kids).flatten).1
+      = (runOne (gStep (gSteps (fragPath ax0 tests) false) ns vs) gInit (Node.elem tag attrs kids).flatten).1 := by
+  rcases hax with rfl | rfl
+  · have hg : gSteps (fragPath .descendant tests) false = dotSlash :: fragPath .descendant tests := by
+      cases tests with
+      | nil => exact absurd rfl hne
+      | cons t0 ts => simp [gSteps, fragPath]
+    rw [fragments_desc tests hne, hg,
+      generic_of_abstract ns vs _ 1 tests hne (fragAt_desc tests hne)
+        (by intro s hs'
+            rcases List.mem_cons.mp hs' with rfl | h
+            · rfl
+            · exact preds_fragPath _ _ s h)]
+    exact kmp_run_desc ns vs tests hne hs _ tag attrs kids hcl
+  · have hg : gSteps (fragPath .descendantOrSelf tests) false = fragPath .descendantOrSelf tests := by
+      cases tests with
+      | nil => exact absurd rfl hne
+      | cons t0 ts => simp [gSteps, fragPath]
+    rw [fragments_dos tests hne, hg,
+      generic_of_abstract ns vs _ 0 tests hne (fragAt_dos tests hne) (preds_fragPath _ _)]
+    exact kmp_run_dos ns vs tests hne hs _ tag attrs kids hcl
+
+end
+
+theorem simple_of_mem (tests : List NodeTest) (h : ∀ t ∈ tests, simpleT t = true) :
+    Simple (Fof tests) tests.length := by
+  intro i hi
+  have : Fof tests i = tests[i] := by simp [Fof, List.getD, List.getElem?_eq_getElem hi]
+  rw [this]
+  exact h _ (List.getElem_mem hi)
+
 end Genshi.Path.Kmp
